@@ -246,7 +246,23 @@ def parse_spec(s):
     elem = None
     if '[' in s:
         head, rest = s.split('[', 1)
-        elem = parse_spec(rest[:-1])
+        inner = rest[:-1]
+        if head == 'tuple' and ',' in inner:
+            parts, depth, cur = [], 0, ''
+            for ch in inner:
+                if ch == '[':
+                    depth += 1
+                elif ch == ']':
+                    depth -= 1
+                if ch == ',' and depth == 0:
+                    parts.append(cur)
+                    cur = ''
+                else:
+                    cur += ch
+            parts.append(cur)
+            elem = [parse_spec(x.strip()) for x in parts]
+        else:
+            elem = parse_spec(inner)
         s = head
     if s in ('str', 'int', 'bool', 'any', 'dict', 'set', 'list', 'tuple', 'none', 'opaque'):
         ts = TypeSpec(s, (), opt, elem)
